@@ -2,3 +2,4 @@ import LettreVerif.Props.C12
 #print axioms LV.C12.enc_length
 #print axioms LV.C12.encoded_word_roundtrip
 #print axioms LV.C12.word_room_le_45
+#print axioms LV.C12.unstructured_roundtrip
